@@ -216,12 +216,35 @@ func ruleTabDate(c *Ctx, r *Rep) {
 		r.Undecided("shape:duration-pattern", "generator/config/v1/duration.json", why)
 		return
 	}
-	unitOfGroup := func(v ssa.Value) string {
+	var subCalls []*ssa.Call // the FindStringSubmatch calls the counts come from
+	var unitOfGroup func(v ssa.Value) string
+	unitOfGroup = func(v ssa.Value) string {
 		// v = extract #0 of a call whose (transitive, module) argument is submatch[const]
 		seen := 0
 		for seen < 4 {
 			seen++
 			if ex, ok := v.(*ssa.Extract); ok {
+				// a module helper that splits the duration and hands back several counts: follow result #k
+				if call, isCall := ex.Tuple.(*ssa.Call); isCall {
+					if g := call.Call.StaticCallee(); g != nil && c.InModule(g) && g.Blocks != nil && !wrapsAtoi(g) && g.Signature.Results().Len() > 2 {
+						unit := ""
+						for _, ret := range returnsOf(g) {
+							if returnsNonNilError(ret) {
+								continue
+							}
+							u := unitOfGroup(retResults(ret)[ex.Index])
+							if unit == "" {
+								unit = u
+							} else if unit != u {
+								return "?helper returns different groups"
+							}
+						}
+						if unit == "" {
+							return "?helper never succeeds"
+						}
+						return unit
+					}
+				}
 				v = ex.Tuple
 			}
 			call, ok := v.(*ssa.Call)
@@ -248,6 +271,7 @@ func ruleTabDate(c *Ctx, r *Rep) {
 				if !ok || calleeFullName(sub) != "(*regexp.Regexp).FindStringSubmatch" {
 					return "?not a submatch"
 				}
+				subCalls = append(subCalls, sub)
 				if u := groups[int(k.Int64())]; u != "" {
 					return u
 				}
@@ -308,14 +332,16 @@ func ruleTabDate(c *Ctx, r *Rep) {
 	}
 	r.Check(nowOK, "from-absent-now", c.FnPos(fn), "without from, From = time.Now()", sprintf("%v", nowOK))
 	// submatch regexp is the one compiled from duration.json
-	rxOK := false
-	for _, ci := range callsIn(fn) {
-		if calleeFullName(ci) == "(*regexp.Regexp).FindStringSubmatch" {
-			if u, ok := ci.Common().Args[0].(*ssa.UnOp); ok {
-				if g, ok := u.X.(*ssa.Global); ok {
-					rxOK = globalCompiledFromEmbed(c, g, "duration.json")
-				}
+	rxOK := len(subCalls) > 0
+	for _, sub := range subCalls {
+		ok := false
+		if u, isLoad := sub.Call.Args[0].(*ssa.UnOp); isLoad {
+			if g, isG := u.X.(*ssa.Global); isG {
+				ok = globalCompiledFromEmbed(c, g, "duration.json")
 			}
+		}
+		if !ok {
+			rxOK = false
 		}
 	}
 	r.Check(rxOK, "duration-regexp-source", c.FnPos(fn), "the submatch regexp is compiled at init from the embedded duration.json", sprintf("%v", rxOK))
